@@ -94,7 +94,7 @@ pub fn pick_k(rng: &mut Rng, family: u64, kmax: usize) -> usize {
 /// Hostile family: the receiver is flooded with more than L symbols that are linearly dependent
 /// (repair ESIs whose LT rows coincide, found with the reference model), and only afterwards gets
 /// the symbols that complete the rank. The rank oracle decides every prefix as usual.
-fn gen_flood_case(seed: u64, idx: u64) -> Case {
+pub fn gen_flood_case(seed: u64, idx: u64) -> Case {
     let mut rng = Rng::derive(seed, 0x0212, idx);
     let K = *rng.pick(&[1usize, 3, 7, 9, 10, 11, 12, 18, 20, 26]);
     let p = rm::params(K);
